@@ -158,6 +158,10 @@ let process_history (hdr : line) (blocks : block list) (verbose : int) (do_full 
         let expected, margin =
           match b.op, !prev with
           | None, _ -> (Some (fresh ()), None)
+          | Some l, None when l.tag = "I" ->                            (* first observed state of a module history whose grid is created with the first sample *)
+              let q = quad_of l in
+              if not (valid_quad_b q) then (bump "invalid_input_skipped"; (None, None))
+              else (Some (insert (fresh ()) q), Some (fun () -> insert_margin (fresh ()) q))
           | Some l, None -> (Some (fresh ()), None)                     (* first join of a module history *)
           | Some l, Some p when l.tag = "I" ->
               let q = quad_of l in
